@@ -132,6 +132,40 @@ TTick ==
   /\ ProjOk
   /\ Adv
 
+(* Hostile input (C14).  "garbage": a control datagram that is not a well-formed
+   documented command (non-text octets, non-numeric arguments, no CMD prefix,
+   over-long) - processing returns normally, nothing changes, at most one
+   reply, and only to a datagram that starts with CMD.  "wild": a well-formed
+   command whose integers exceed what this specification can compute with
+   (TLC integers are 32 bit) - processing returns normally with exactly one
+   reply, and only the addressed transceiver's tuning / simulation parameters
+   may change; the specification continues from the logged values.          *)
+SameAsLogged == {t \in Ids : Rest(trx[t]) # Rest(P.trx[t]) \/ trx[t].run # P.trx[t].run \/ trx[t].fh # P.trx[t].fh
+                               \/ QProj(trx[t].q) # P.trx[t].q \/ trx[t].drop # P.trx[t].drop \/ trx[t].muted # P.trx[t].muted} = {}
+TGarbage ==
+  /\ IsEv("garbage")
+  /\ Tag("C14.no-exception", Ev.exc = "")
+  /\ Tag("C14.garbage-has-no-effect", SameAsLogged /\ clk.run = P.clk.run)
+  /\ Tag("C14.garbage-reply", IF Ev.sock = "ctrl" /\ IsCmd(Ev.raw)
+                                THEN Len(Ev.outs) <= 1 /\ (Len(Ev.outs) = 1 => (Ev.outs[1].kind = "ctrl" /\ Ev.outs[1].t = Ev.t /\ Ev.outs[1].port = Ev.rport
+                                                                               /\ SubSeq(Ev.outs[1].raw, 1, 4) = <<82, 83, 80, 32>>))
+                                ELSE Ev.outs = <<>>)
+  /\ UNCHANGED fvars
+  /\ Adv
+
+Tunables == {"rx", "tx", "ver", "ta", "att", "nompwr", "frssi", "toa", "ci", "delay", "drop", "muted"}
+TWild ==
+  /\ IsEv("wild")
+  /\ Tag("C14.no-exception", Ev.exc = "")
+  /\ Tag("C14.exactly-one-reply", Len(Ev.outs) = 1 /\ Ev.outs[1].kind = "ctrl" /\ Ev.outs[1].t = Ev.t)
+  /\ Tag("C14.wild-touches-only-parameters",
+         /\ \A t \in Ids : trx[t].run = P.trx[t].run /\ QProj(trx[t].q) = P.trx[t].q
+         /\ \A t \in Ids \ {Ev.t} : Rest(trx[t]) = Rest(P.trx[t]) /\ trx[t].fh = P.trx[t].fh /\ trx[t].drop = P.trx[t].drop
+         /\ clk.run = P.clk.run)
+  /\ trx' = [trx EXCEPT ![Ev.t] = [f \in DOMAIN trx[Ev.t] |-> IF f \in Tunables \cup {"fh"} THEN P.trx[Ev.t][f] ELSE trx[Ev.t][f]]]
+  /\ out' = NoOut /\ UNCHANGED <<wire, clk>>
+  /\ Adv
+
 \* port plan (C12): checked once, on the wiring the code built
 PortsOk ==
   \A t \in Ids : LET w == wire[t] IN
@@ -142,7 +176,7 @@ PortsOk ==
 TPorts == IsEv("ports") /\ Tag("C12.port-plan", PortsOk) /\ UNCHANGED fvars /\ Adv
 
 TInit == KInit /\ Init(T.cfg.wire, T.cfg.period, T.cfg.start)
-TNext == TCmd \/ TData \/ TTick \/ TPorts
+TNext == TCmd \/ TData \/ TTick \/ TPorts \/ TGarbage \/ TWild
 TSpec == TInit /\ [][TNext]_<<fvars, kvars>>
 Post == WriteVerdicts
 =============================================================================
